@@ -35,7 +35,7 @@ for p in props:
                               'and hostile workloads (incl. sequences that repeat a call with one configuration element changed, and the '
                               'same call delivered in other ways: int / numpy / float-subclass numbers, other array layouts and dtypes, '
                               'keywords and left-out defaults, other containers, shards in other time zones / hash seeds / decimal contexts / '
-                              'working directories, a twin call injected at a statement boundary inside a share of the judged calls) and '
+                              'working directories, a twin call injected at a statement boundary inside a share of the judged calls, results edited in place by the caller afterwards, calls the library refuses, inputs some orders of magnitude above and below the usual) and '
                               'every observed execution is judged by a monitor against an independent executable oracle. The verdict '
                               'is "held on the executions observed" (counts, class buckets, samples and max error/tolerance are in '
                               'the evidence), nothing more; inconclusive (exit 2) when a deciding monitor saw nothing. Workload and '
